@@ -17,13 +17,15 @@ What of the engine/client composition is ABSTRACTED here (each point is observab
       NON-order-only entry of its stored dependency list has `computedAt` greater than the rule's `builtAt`
       (`BuildEngine.cpp`, `processRuleScanRequest`).  The in-memory `builtAt = currentEpoch` mark that `setComplete`
       puts on a rule that did not need to run is not persisted and is not modelled (one process per build).
- (A3) the stored dependency list of a command is not kept in the database but recomputed from the manifest
-      (`dependencyList`: the requests of `start()` + the depfile entries when the command has a deps style) - manifest
-      edits only change command lines here, and the depfile entries of a command are a fixed list (`Command.deps`;
-      FRAGMENT BOUNDARY: entries that depend on the contents read are not modelled).  The stream `c18deps` compares the
-      stored list with `dependencyList` on every build.
- (A4) input rules of source files: every demanded source file is re-validated at the beginning of the build instead
-      of at the moment its first consumer scans it (same epoch, so no comparison can tell the difference).
+ (A3) the stored dependency list of a command (`World.depDb`) is what the engine records when the task completes:
+      the requests of `start()` and, after a successful execution of a command with a deps style, the depfile entries
+      (`dependencyList`); it is the STORED list that the next scan walks, also when the statement's inputs have been edited
+      since (graph edits, `GStep`).  The depfile entries of a command are a fixed list (`Command.deps`; FRAGMENT BOUNDARY:
+      entries that depend on the contents read are not modelled).  The stream `c18deps` compares the stored list with
+      `dependencyList` on every build.
+ (A4) input rules of source files: every demanded source file - and every source file in a stored dependency list of a
+      needed command - is re-validated at the beginning of the build instead of at the moment its first consumer scans
+      it (same epoch, so no comparison can tell the difference).
  (A5) `FileInfo`: device / inode / mode / size are constants, the modification time is the logical stamp (any write
       with a fresh stamp changes the info; a write that re-uses a stamp does not - the documented non-monotone case).
  (A6) keep-going: a failing command does not cancel the build (`-k 0`); with `-k 1` the set of commands that had
@@ -34,9 +36,16 @@ What of the engine/client composition is ABSTRACTED here (each point is observab
       own: the result of the composite rule carries, per output, the epoch at which the value handed to the consumers of
       that output last changed (`outChanged`), recomputed whenever the composite task completes - which is when the real
       select rule re-runs (its only dependency changed) and compares its new value with its stored one.
- (A9) the command lines (command hashes) are the only part of the manifest that histories edit; they live in
-      `World.cmdline` so that the dependency graph (`Manifest`) is constant along a history (FRAGMENT BOUNDARY: adding
-      or removing build statements, or changing their inputs, is not modelled).
+ (A9) the command lines (command hashes) live in `World.cmdline`; along a history of `Step`s the dependency graph
+      (`Manifest`) is constant.  Graph edits (`GStep`, Props/C18World.lean) replace the list of build statements
+      between two builds: the world - files and database rows, keyed by command name = the rule key `o1&&o2` - stays.
+(A10) graph edits: a path keeps its role (source file / generated) along a history, and all statements are needed (default
+      targets), so that the keys the engine demands while walking a STORED dependency list are demanded anyway.
+(A11) rule signatures (F56): the result of a command rule stores the signature of the rule that produced it (`sigOf`: the
+      statement's input lists by class, iff `Command.sigInputs`, whose default is EXTRACTED from `NinjaBuildCommandRule`).
+      The scan compares it before anything else ("signature changed": the task runs and is handed NO prior value), but the
+      row is not dropped: `taskIsComplete` compares the new value with the stored one (restat pruning survives) and
+      consumers keep seeing the stored value until the task has completed.
 
 CORE LEAN ONLY.
 -/
@@ -54,6 +63,12 @@ structure File where
   stamp : Nat
   deriving DecidableEq, Repr
 
+/-- (A11) does the rule of a build statement carry the signature of its input lists?  As extracted from
+`NinjaBuildCommandRule` (Generated/NinjaBuildTables.lean, `ruleSignatureFields`): `true` for the repaired code (F56: the
+constructor passes `inputsSignature(command)` = number of explicit inputs, number of implicit inputs, the canonical path
+of every input in order), `false` for the code as found (`core::Rule(key)`: the empty signature) -/
+def sigDefault : Bool := ruleSignatureFields == [.numExplicit, .numImplicit, .inputPaths]
+
 /-- one build statement -/
 structure Command where
   name : Nat
@@ -67,7 +82,21 @@ structure Command where
   restat : Bool := false
   generator : Bool := false
   hasDeps : Bool := false
+  /-- configuration (A11): the rule of this statement carries the inputs signature.  The default is what the extractor
+  finds in the code; `false` = the engine as found (F56), used by the witness `C18_graph_input_edit_ignored_asFound` -/
+  sigInputs : Bool := sigDefault
   deriving DecidableEq, Repr
+
+/-- `core::Rule::signature` of a command rule (`basic::CommandSignature` is treated as injective) -/
+structure Sig where
+  nexp : Nat := 0
+  nimp : Nat := 0
+  paths : List Path := []
+  deriving DecidableEq, Repr
+
+/-- `NinjaBuildCommandRule::inputsSignature` -/
+def sigOf (c : Command) : Sig :=
+  if c.sigInputs then ⟨c.exp.length, c.imp.length, c.exp ++ c.imp ++ c.oo⟩ else {}
 
 /-- commands in a topological order + the (deterministic) meaning of executing one: the content written to output
 `o` by a command with effective hash `h` that read the contents `r` (`none` = the file was absent) -/
@@ -93,6 +122,8 @@ structure CmdResult where
   builtAt : Nat
   computedAt : Nat
   outChanged : List Nat
+  /-- `core::Result::signature`: the signature of the rule whose task last completed under this key -/
+  sig : Sig := {}
   deriving DecidableEq, Repr
 
 def CmdResult.toResult (r : CmdResult) : Result := ⟨r.value, r.builtAt, r.computedAt⟩
@@ -111,6 +142,8 @@ structure World where
   cmdDb : Nat → Option CmdResult
   /-- the engine's build epoch -/
   epoch : Nat
+  /-- (A3) the dependency list stored with the result of a command rule, by command name -/
+  depDb : Nat → List (DepEntry Path) := fun _ => []
 
 def World.empty : World :=
   { files := fun _ => none, clock := 0, failing := fun _ => false, cmdline := fun _ => 0, srcDb := fun _ => none,
@@ -157,10 +190,11 @@ def selChanged (E : Nat) (prior : Option CmdResult) (v : BuildValue) (i : Nat) :
     | some vf, some old => if !vf.2 && vf.1 == old.1 then r.outChanged.getD i r.computedAt else E
     | _, _ => E
 
-/-- completion of a command rule with `nouts` outputs -/
-def completeCmd (E : Nat) (prior : Option CmdResult) (v : BuildValue) (force : Bool) (nouts : Nat) : CmdResult :=
+/-- completion of a command rule with `nouts` outputs (`taskIsComplete`: the result takes the rule's signature; the value
+is compared with the STORED one whatever the stored signature was) -/
+def completeCmd (E : Nat) (prior : Option CmdResult) (v : BuildValue) (force : Bool) (nouts : Nat) (sig : Sig := {}) : CmdResult :=
   let b := completeWith E (prior.map (·.toResult)) v force
-  ⟨b.value, b.builtAt, b.computedAt, (List.range nouts).map (selChanged E prior v)⟩
+  ⟨b.value, b.builtAt, b.computedAt, (List.range nouts).map (selChanged E prior v), sig⟩
 
 /-- the scan's test on one stored dependency (a dependency that was never built is built now: changed) -/
 def rebuiltSince (b : Nat) : Option Result → Bool
@@ -241,37 +275,50 @@ def valueOf (cs : List Command) (w : World) (p : Path) : BuildValue :=
   | some r => r.value
   | none => .missingInput
 
-/-- (A3) the stored dependency list of a command whose stored result is valid -/
+/-- (A3) the dependency list recorded by a successful execution of `c` -/
 def storedDeps (c : Command) : List (DepEntry Path) :=
   dependencyList (c.cmd 0) ⟨c.exp, c.imp, c.oo⟩ (if c.hasDeps then c.deps.map some else []) (fun _ => false)
 
-/-- (A2) the engine's scan of a command rule: does its task run? -/
+/-- (A3) the dependency list recorded by a task of `c` that completed without a successful execution (the requests only) -/
+def requestedDeps (c : Command) : List (DepEntry Path) := requestDeps (⟨c.exp, c.imp, c.oo⟩ : Inputs Path)
+
+/-- the stored result of `c`'s rule as far as it was stored under the rule's current signature: what the engine hands to
+the task as the prior value (`ruleInfo.result.builtAt != 0 && rule->signature == result.signature`) -/
+def priorRow (w : World) (c : Command) : Option CmdResult := (w.cmdDb c.name).filter (fun r => r.sig == sigOf c)
+
+/-- (A2) the engine's scan of a command rule: does its task run?  Never built; signature changed; value invalid; a stored
+dependency changed - in this order -/
 def needsTask (cs : List Command) (w : World) (c : Command) : Bool :=
   match w.cmdDb c.name with
   | none => true
   | some r =>
+    r.sig != sigOf c ||
     commandIsResultValid (c.cmd (w.cmdline c.name)) r.value (c.outs.map w.info) != .valid ||
-    triggersRerun (storedDeps c) (fun k => rebuiltSince r.builtAt (resOf cs w k))
+    triggersRerun (w.depDb c.name) (fun k => rebuiltSince r.builtAt (resOf cs w k))
 
 /-- the task of a command rule: `start` / `provideValue` / `inputsAvailable` / `executeCommand` -/
 def runTask (m : Manifest) (before : List Command) (E : Nat) (c : Command) (w : World) : World × Did :=
-  let prior := w.cmdDb c.name
+  let row := w.cmdDb c.name
+  let prior := priorRow w c
   let k := c.cmd (w.cmdline c.name)
   let ins : Inputs BuildValue := ⟨c.exp.map (valueOf m.cmds w), c.imp.map (valueOf m.cmds w), c.oo.map (valueOf m.cmds w)⟩
   let outsNow := c.outs.map w.info
   match inputsAvailable {} k (accumulate k ins) (prior.map (·.value)) outsNow with
   | .complete v force =>
-    ({ w with cmdDb := upd w.cmdDb c.name (some (completeCmd E prior v force c.outs.length)) },
+    ({ w with cmdDb := upd w.cmdDb c.name (some (completeCmd E row v force c.outs.length (sigOf c))),
+              depDb := upd w.depDb c.name (requestedDeps c) },
      if v.kind == .successfulCommand then (if c.phony then .phony else .updated) else .skipped)
   | .execute =>
     if w.failing c.name then
       let vf := afterExecute k false true []
-      ({ w with cmdDb := upd w.cmdDb c.name (some (completeCmd E prior vf.1 vf.2 c.outs.length)) }, .failed)
+      ({ w with cmdDb := upd w.cmdDb c.name (some (completeCmd E row vf.1 vf.2 c.outs.length (sigOf c))),
+                depDb := upd w.depDb c.name (requestedDeps c) }, .failed)
     else
       let fc := writeOuts c.restat (c.outs.map fun o => (o, outContent m before c w o)) (w.files, w.clock)
       let w1 : World := { w with files := fc.1, clock := fc.2 }
       let vf := afterExecute k true true (c.outs.map w1.info)
-      ({ w1 with cmdDb := upd w1.cmdDb c.name (some (completeCmd E prior vf.1 vf.2 c.outs.length)) }, .executed)
+      ({ w1 with cmdDb := upd w1.cmdDb c.name (some (completeCmd E row vf.1 vf.2 c.outs.length (sigOf c))),
+                 depDb := upd w1.depDb c.name (storedDeps c) }, .executed)
 
 /-- one command: scan, task if needed -/
 def stepCmd (m : Manifest) (d : List Path) (E : Nat) (before : List Command) (c : Command) (w : World) :
@@ -288,11 +335,15 @@ def stepAll (m : Manifest) (d : List Path) (E : Nat) : List Command → List Com
     let r' := stepAll m d E (c :: before) rest r.1
     (r'.1, r.2 ++ r'.2)
 
+/-- (A4) the keys of the stored dependency lists of the needed commands -/
+def storedKeys (m : Manifest) (d : List Path) (w : World) : List Path :=
+  m.cmds.flatMap fun c => if c.neededIn d then (w.depDb c.name).map (·.key) else []
+
 /-- everything a build did: the new world and, for every command whose task ran, what it did -/
 def buildFull (m : Manifest) (targets : List Path) (w : World) : World × List (Nat × Did) :=
   let d := demanded m targets
   let E := w.epoch + 1
-  stepAll m d E [] m.cmds (refreshSrcs m.cmds E d { w with epoch := E })
+  stepAll m d E [] m.cmds (refreshSrcs m.cmds E (d ++ storedKeys m d w) { w with epoch := E })
 
 /-- a command that was executed (spawned), and whether it succeeded -/
 structure CommandRun where
@@ -348,7 +399,7 @@ def applyEdit (w : World) : Edit → World
 
 /-- `--no-db`: nothing is persisted between builds -/
 def World.dropDb (w : World) : World :=
-  { w with srcDb := fun _ => none, cmdDb := fun _ => none }
+  { w with srcDb := fun _ => none, cmdDb := fun _ => none, depDb := fun _ => [] }
 
 /-! ### what a build from scratch writes -/
 
